@@ -1,0 +1,18 @@
+//go:build verif
+
+package zygo
+
+// Read-only accessors for the C01 verification harness (build tag verif).
+
+// VerifFlags returns the reader flags of a symbol: dot-symbol, trailing
+// colon (keyword), sigil.
+func (sym *SexpSymbol) VerifFlags() (isDot, colonTail, isSigil bool, sigil string) {
+	return sym.isDot, sym.colonTail, sym.isSigil, sym.sigil
+}
+
+// VerifIsBuilder reports whether a function value is a builder (receives its
+// arguments unevaluated).
+func (sf *SexpFunction) VerifIsBuilder() bool { return sf.isBuilder }
+
+// VerifLoopDepth returns the size of the compile-time loop stack.
+func (env *Zlisp) VerifLoopDepth() int { return env.loopstack.Size() }
